@@ -228,6 +228,19 @@ def oracle(c, o):
             return "load(open(%r)) gives %s..., expected %s..." % (n, str(o["load_open:" + n])[:200], str(w)[:200])
         if "\r" not in t and o["open:" + n] != w:
             return "open(%r) gives %s..., expected %s..." % (n, str(o["open:" + n])[:200], str(w)[:200])
+        if "\r" in t:
+            # opening by name reads in text mode: the rules apply to the text with CRLF and CR read as LF
+            from msdparser import parse_msd
+            tn = t.replace("\r\n", "\n").replace("\r", "\n")
+            try:
+                pn = [list(x.components) for x in parse_msd(string=tn, ignore_stray_text=not strict)]
+            except Exception:
+                pn = None
+            if pn is not None:
+                smn, sscn = doc_sm(pn), doc_ssc(pn)
+                wn = sscn if suf == "ssc" else smn if suf == "sm" else (sscn if (pn and pn[0][0].upper() == "VERSION") else smn)
+                if o["open:" + n] != wn:
+                    return "open(%r) on text with carriage returns gives %s..., the rules on the text-mode contents give %s..." % (n, str(o["open:" + n])[:200], str(wn)[:200])
     if not strict:
         # equals the result for the same text with the stray text removed: re-render the parameters and parse strictly
         pass
